@@ -290,3 +290,5 @@ func Harness_EVC_wetfault3_accmeta_save_existing() { checkEvents(false, "accmeta
 func Harness_EVC_wetfault3_accmeta_save_new() { checkEvents(false, "accmeta_save_new", false, 3) }
 func Harness_EVC_wetfault3_accmeta_delete() { checkEvents(false, "accmeta_delete", false, 3) }
 func Harness_EVC_wetfault3_schema_insert() { checkEvents(false, "schema_insert", false, 3) }
+func Harness_EVC_wet_create_self()       { checkEvents(false, "create_self", false, 0) }
+func Harness_EVS_wet_create_self()       { checkEvents(true, "create_self", false, 0) }
